@@ -44,12 +44,13 @@ Judge(o) ==
 Known == JsonDeserialize(IOEnv.KNOWN_FINDINGS)
 ActiveK == {Known.findings[j].id : j \in {j \in 1..Len(Known.findings) : Known.findings[j].status = "known"}}
 
-KOrder == <<"KC14-1", "KC14-2", "KC14-3", "KC14-4">>
+KOrder == <<"KC14-1", "KC14-2", "KC14-3", "KC14-4", "KC14-5">>
 DevOf == [k \in {KOrder[j] : j \in DOMAIN KOrder} |->
             CASE k = "KC14-1" -> "MissingVariableIsFalse"
               [] k = "KC14-2" -> "QuestionMarkIsWildcard"
               [] k = "KC14-3" -> "BackslashEscapesOnlyStar"
-              [] k = "KC14-4" -> "PathReadsRawInput"]
+              [] k = "KC14-4" -> "PathReadsRawInput"
+              [] k = "KC14-5" -> "SubMicrosecondIgnored"]
 Candidates == {ks \in SUBSET ({KOrder[j] : j \in DOMAIN KOrder} \cap ActiveK) : ks # {}}
 RECURSIVE JoinIds(_, _)
 JoinIds(ks, j) ==
